@@ -232,6 +232,7 @@ static void run_case(const Case& c, const string& wd, std::ostream& o) {
   vector<const char*> cn, rn;
   for (auto& s : c.cn) cn.push_back(s.c_str());
   for (auto& s : c.rn) rn.push_back(s.c_str());
+  cn.push_back(nullptr); rn.push_back(nullptr);   // data() must be non-null also for an empty list (never read)
   NLW2_NLOptionsBasic_C opts = NLW2_MakeNLOptionsBasic_C_Default();
   opts.n_text_mode_ = c.text; opts.want_nl_comments_ = c.comments; opts.flags_ = c.flags;
   NLW2_SparseVector_C ws{(int)c.wsi.size(), c.wsi.data(), c.wsv.data()};
@@ -297,7 +298,7 @@ static void run_case(const Case& c, const string& wd, std::ostream& o) {
     mp::Problem p; RBHandler h(p);
     string err;
     try { mp::ReadNLFile(stub + ".nl", h); }
-    catch (const mp::Error& e) { err = string("read-error"); if (std::strstr(e.what(), "too few arguments")) err += ":too-few-arguments"; }
+    catch (const mp::Error& e) { err = string("read-error"); if (std::strstr(e.what(), "too few arguments")) err += ":too-few-arguments"; std::fprintf(stderr, "%s: %s\n", id.c_str(), e.what()); }
     catch (const std::exception& e) { err = "exception"; }
     if (h.got) {
       const mp::NLHeader& H = h.hdr;
@@ -335,7 +336,7 @@ static void run_case(const Case& c, const string& wd, std::ostream& o) {
       for (int k = 0; k < 4; ++k) {
         vector<string> lines;
         for (auto s : p.suffixes((mp::suf::Kind)k)) {
-          std::ostringstream l; l << id << " suf " << s.name() << " " << (s.kind() & 7) << " " << s.num_values();
+          std::ostringstream l; l << id << " suf " << s.name() << " " << (s.kind() & 7);
           SufPrinter sp{l}; s.VisitValues(sp); lines.push_back(l.str());
         }
         std::sort(lines.begin(), lines.end());
